@@ -59,6 +59,23 @@ def main():
         json.dump(props[pid], open(wt + ".property.json", "w"), indent=1)
         tr = tried(pid) if suffix and not suffix.startswith("r") else []
         ttxt = ""
+        if suffix.startswith("r"):
+            # earlier refactorings of the same property: name the functions they touched
+            import re
+            fns = set()
+            rdir = os.path.join(VERIF, "refactors")
+            for d in sorted(os.listdir(rdir)) if os.path.isdir(rdir) else []:
+                pf = os.path.join(rdir, d, "patch.diff")
+                if d.startswith(pid) and os.path.exists(pf):
+                    for l in open(pf):
+                        m = re.match(r"^@@ .* @@.*?\bfn (\w+)", l)
+                        if m:
+                            fns.add(m.group(1))
+                        m = re.match(r"^[-+]\s*(?:pub(?:\([a-z]+\))? )?fn (\w+)", l)
+                        if m:
+                            fns.add(m.group(1))
+            if fns:
+                ttxt = " An earlier clean-up already reworked these functions: " + ", ".join(sorted(fns)) + ". Prefer OTHER functions among the property's anchors (and their callees in the same files), or, if you touch the same ones, clearly different transformations."
         if tr:
             ttxt = " Earlier contributors already tried the following, so pick a DIFFERENT clause of the property and a different mechanism / place in the code: " + "; ".join(tr) + "."
         open(wt + ".prompt.txt", "w").write(tmpl.replace("@WT@", wt).replace("@NEEDS@", NEEDS[pid]).replace("@TRIED@", ttxt))
